@@ -14,6 +14,7 @@ DEC_PREFIXES = ["kilo", "milli", "micro", "mega", "nano", "giga", "centi", "hect
                 "quecto", "quetta", "yotta", "yocto"]
 BIN_PREFIXES = ["kibi", "mebi"]
 F13_TAG = "[known float-log10 boundary F13]"
+F32_TAG = "[known float exponent arithmetic F32]"
 
 
 def qj(q):
@@ -340,6 +341,9 @@ class Check(Property):
                                 v.append(f"{tag}.to_reduced_units() = {r!r} still has {a} and {b} of one dimension")
                 if h == "to_compact" and mult:
                     v.extend(self.oracle_compact(P, u, q, r, args, tag))
+        # other magnitude types: the same helpers on float, Decimal and uncertain magnitudes agree numerically with the exact answers
+        if mult and want is not None and Fraction(c["a"]["m"]) != 0 and all(Fraction(e).denominator == 1 for _, e in c["a"]["u"]):
+            v.extend(self.oracle_types(P, c, want))
         # passthrough
         for special in (float("nan"), float("inf"), float("-inf"), 0, 0.0, Fraction(0)):
             qs = u.Quantity(special, q.units)
@@ -354,6 +358,68 @@ class Check(Property):
                 if mult:
                     v.append(f"{tag}: to_compact of magnitude {special!r} raised {type(exc).__name__}")
         return v
+
+    def oracle_types(self, P, c, want):
+        from decimal import Decimal
+        from uncertainties import ufloat
+        v = []
+        fr = Fraction(c["a"]["m"])
+        if not (1e-250 < abs(float(fr)) < 1e250):
+            return v
+        variants = [("float", regs.ureg("float"), float(fr)),
+                    ("decimal", regs.ureg("decimal"), Decimal(fr.numerator) / Decimal(fr.denominator)),
+                    ("ufloat", regs.ureg("float"), ufloat(float(fr), abs(float(fr)) / 8))]
+        for tname, u, mag in variants:
+            try:
+                q = u.Quantity(mag, u.Unit(regs.pint_uc(u, c["a"]["u"], "float" if tname == "ufloat" else tname, canonical=True)))
+            except Exception:  # noqa: BLE001
+                continue
+            for h in ("to_root_units", "to_base_units", "to_reduced_units", "to_compact"):
+                with warnings.catch_warnings():
+                    warnings.simplefilter("ignore")
+                    try:
+                        r = getattr(q, h)()
+                        units = {k: regs.to_frac(x) for k, x in r._units.items()}
+                        if any(x.denominator != 1 for x in units.values()):
+                            continue
+                        f, _ = P.proj.root(units)
+                        m = r.magnitude
+                        nom = float(m.nominal_value) if hasattr(m, "nominal_value") else float(m)
+                        got = nom * float(f)
+                        if not math.isclose(got, float(want[0]), rel_tol=1e-9):
+                            v.append(f"C15 {q!r}.{h}() [{tname} magnitude] = {r!r}: physical value {got} differs from {float(want[0])}")
+                        d = P.proj.dimensionality(units)
+                        if tuple(sorted((k, x) for k, x in d.items() if x != 0)) != want[1]:
+                            v.append(f"C15 {q!r}.{h}() [{tname} magnitude] = {r!r}: dimensionality changed")
+                        if tname == "ufloat" and 1e-140 < abs(nom) < 1e140 and not math.isclose(m.std_dev / abs(nom), 1 / 8, rel_tol=1e-9):
+                            v.append(f"C15 {q!r}.{h}() [uncertain magnitude]: relative error {m.std_dev / abs(nom)} instead of 0.125")
+                        if tname == "decimal" and not isinstance(m, (Decimal, int)):
+                            v.append(f"C15 {q!r}.{h}() [Decimal magnitude] returned a {type(m).__name__}")
+                    except Exception as exc:  # noqa: BLE001
+                        if type(exc).__name__ not in ("OffsetUnitCalculusError", "OverflowError", "InvalidOperation", "Overflow"):
+                            tag32 = ""
+                            if h == "to_reduced_units" and type(exc).__name__ == "DimensionalityError" and self.fractional_ratio(P, c["a"]["u"]):
+                                tag32 = " " + F32_TAG
+                            v.append(f"C15 {q!r}.{h}() [{tname} magnitude] raised {type(exc).__name__}: {str(exc)[:120]}{tag32}")
+        return v
+
+    def fractional_ratio(self, P, items):
+        """do two units of the quantity have proportional dimensionalities with a ratio other than 1?"""
+        dims = []
+        for k, _ in items:
+            try:
+                d = {a: b for a, b in P.proj.dimensionality({k: Fraction(1)}).items() if b != 0}
+            except Exception:  # noqa: BLE001
+                return False
+            dims.append(d)
+        for i, da in enumerate(dims):
+            for db in dims[i + 1:]:
+                if da and db and da.keys() == db.keys():
+                    rs = {db[x] / da[x] for x in da}
+                    if len(rs) == 1:
+                        if rs.pop() != 1:          # any ratio other than 1 makes `exp / power` a float division
+                            return True
+        return False
 
     def strip(self, P, units, check_decimal=False):
         out = {}
@@ -420,8 +486,15 @@ class Check(Property):
         return v
 
     def oracle_auto(self, P, c):
+        v = self.oracle_auto_one(P, c, "auto_reduce_dimensions")
+        v += self.oracle_auto_one(P, c, "autoconvert_to_preferred")
+        return v
+
+    def oracle_auto_one(self, P, c, option):
         v = []
-        u = regs.ureg("fraction", auto_reduce_dimensions=True)
+        u = regs.ureg("fraction", **{option: True})
+        if option == "autoconvert_to_preferred":
+            u.default_preferred_units = [u.Unit("meter"), u.Unit("kilogram"), u.Unit("second"), u.Unit("newton"), u.Unit("watt")]
         u0 = regs.ureg("fraction")
         try:
             a, b = self.mkq(u, c["a"]), self.mkq(u, c["b"])
@@ -437,11 +510,11 @@ class Check(Property):
         try:
             r = a * b if c["f"] == "mul" else a / b
         except Exception as exc:  # noqa: BLE001
-            v.append(f"C15 auto_reduce {a!r} {c['f']} {b!r}: raised {type(exc).__name__}, the plain registry returns {r0!r}")
+            v.append(f"C15 {option} {a!r} {c['f']} {b!r}: raised {type(exc).__name__}, the plain registry returns {r0!r}")
             return v
         try:
             if not self.close(self.phys(P, r), self.phys(P, r0)):
-                v.append(f"C15 auto_reduce {a!r} {c['f']} {b!r} = {r!r}: differs physically from the plain result {r0!r}")
+                v.append(f"C15 {option} {a!r} {c['f']} {b!r} = {r!r}: differs physically from the plain result {r0!r}")
         except Exception:  # noqa: BLE001
             pass
         return v
